@@ -32,6 +32,7 @@ Layout built once per worker under the worker's private cwd (removed by the pare
 import json
 import os
 import random
+import zlib
 
 PROPERTY = "C20"
 LEVEL = "exploration"
@@ -204,7 +205,10 @@ def cases(tier, seed):
         if made_thr < n_thr:
             made_thr += 1
             n += 1
-            yield _gen_thread_case(n, rng, real=(made_thr % 20 == 0))
+            if made_thr % 20 == 10:
+                yield _gen_shared_prefix_case(n, rng)
+            else:
+                yield _gen_thread_case(n, rng, real=(made_thr % 20 == 0))
 
 
 # ----------------------------------------------------------------------------------------------
@@ -293,6 +297,28 @@ def _gen_thread_case(n, rng, real=False):
     if real:
         c["real"] = True
     return c
+
+
+SHARED_TEXTS = ["hi", "hello there", "tell me more", "and then?", "thanks"]
+
+
+def _gen_shared_prefix_case(n, rng):
+    """Unmodified LLMRails; 2-3 threads (and sometimes a thread-less client) whose user texts come from a pool of five, so
+    that histories of different threads are textually identical for a while; the requests of the threads interleave.
+    Judged additionally by non-interference: every thread is afterwards replayed alone on a fresh server state and must
+    have got the same replies and the same stored history."""
+    pool = _thread_pool(rng)[: rng.choice([2, 2, 3])]
+    first = rng.choice(SHARED_TEXTS)
+    turn = {}
+    reqs = []
+    for i in range(rng.randint(4, 10)):
+        tid = None if rng.random() < 0.08 else rng.choice(pool)
+        k = turn.get(tid, 0)
+        turn[tid] = k + 1
+        text = first if (k == 0 and rng.random() < 0.85) else rng.choice(SHARED_TEXTS)
+        reqs.append({"cfg": {"config_id": "cfg_r"}, "thread_id": tid, "messages": [{"role": "user", "content": text}],
+                     "context": None, "shape": "dict"})
+    return {"id": n, "fam": "thr", "reqs": reqs, "real": True, "alone": True}
 
 
 # ----------------------------------------------------------------------------------------------
@@ -432,10 +458,10 @@ def _make_real_rails(rec):
             return "c20fake"
 
         def _call(self, prompt, stop=None, run_manager=None, **kw):
-            return "REAL-REPLY %d" % len(prompt)
+            return "REAL-REPLY %d %08x" % (len(prompt), zlib.crc32(prompt.encode("utf-8", "replace")))
 
         async def _acall(self, prompt, stop=None, run_manager=None, **kw):
-            return "REAL-REPLY %d" % len(prompt)
+            return "REAL-REPLY %d %08x" % (len(prompt), zlib.crc32(prompt.encode("utf-8", "replace")))
 
     class C20Emb(EmbeddingModel):
         engine_name = "c20emb"
@@ -880,6 +906,7 @@ def _run_thread_case(case):
             return viol(prob["kind"], i, req, **{k: v for k, v in prob.items() if k != "kind"})
         expected_store = {"thread-" + t: m for t, m in model.items()}
         trace.append({"i": i, "thread": _short(tid, 24) if tid is not None else None, "cfg": ids, "got": kind,
+                      "reply": (out["json"]["messages"][0].get("content") if real and kind == "success" else None),
                       "seen_by_generation": len(out["gen"][0]["messages"]) if out["gen"] else None,
                       "stored_len": len(after.get("thread-" + tid, [])) if tid is not None else None})
         bad_tid = tid is not None and not (16 <= len(tid) <= 255)
@@ -945,6 +972,33 @@ def _run_thread_case(case):
         obs["max_threads_in_store"] = max(obs.get("max_threads_in_store", 0), len(after))
     if checked == 0:
         return dict(res, verdict="inconclusive", reason="expected: no successful turn in the sequence", nontrivial=False)
+    if case.get("alone"):
+        # non-interference: each thread replayed alone on a fresh server state (new rails instance, empty caches and store)
+        together = {}
+        for j, t in enumerate(trace):
+            together.setdefault(case["reqs"][t["i"]].get("thread_id"), []).append((t["i"], t.get("reply")))
+        final_store = _store_snapshot()
+        for tid, seq in together.items():
+            if tid is None:
+                continue
+            _reset("multi")
+            alone = []
+            for i, _r in seq:
+                req = case["reqs"][i]
+                W["rec"]["ctl"] = {"reply": None, "shape": "dict", "fail": False}
+                out = _post({"config_id": "cfg_r", "thread_id": tid, "messages": json.loads(json.dumps(req["messages"]))})
+                obs["requests"] += 1
+                alone.append(out["json"]["messages"][0].get("content") if isinstance(out.get("json"), dict) and out["json"].get("messages") else None)
+            obs["threads_replayed_alone"] = obs.get("threads_replayed_alone", 0) + 1
+            obs["turns_replayed_alone"] = obs.get("turns_replayed_alone", 0) + len(seq)
+            got = [r for _i, r in seq]
+            if got != alone or _store_snapshot().get("thread-" + tid) != final_store.get("thread-" + tid):
+                k = next((x for x in range(len(got)) if x >= len(alone) or got[x] != alone[x]), None)
+                return viol("thread-differs-from-the-same-thread-alone", seq[k][0] if k is not None else seq[-1][0], case["reqs"][seq[-1][0]],
+                            thread=_short(tid, 40), replies_with_other_threads=got, replies_alone=alone,
+                            stored_alone=_store_snapshot().get("thread-" + tid), stored_together=final_store.get("thread-" + tid))
+        shared = len(set(json.dumps(final_store[k][:2]) for k in final_store)) < len(final_store)
+        obs["sequences_with_identical_first_turns"] = obs.get("sequences_with_identical_first_turns", 0) + (1 if shared else 0)
     inter = _interleaved(order)
     obs["interleaved_sequences"] = 1 if inter else 0
     res["nontrivial"] = inter
@@ -983,7 +1037,8 @@ def classify(r):
 
 def finalize(tier, seed, observed, counts):
     need = ["paths_in_root", "fixed_replies", "success_replies", "noid_errors", "validation_422", "thread_store_checks",
-            "served_from_cache", "interleaved_sequences", "failed_generations"]
+            "served_from_cache", "interleaved_sequences", "failed_generations", "threads_replayed_alone",
+            "sequences_with_identical_first_turns"]
     missing = [k for k in need if not observed.get(k)]
     out = {"coverage": {"reach_counters_required": need}}
     if missing:
